@@ -25,12 +25,13 @@ def run(ctx):
     if ctx.thorough:
         runs.append(("exh5", dict(evm="EvmS", ont="OntQ", max_ops=5), None))
         runs.append(("fullD", dict(evm="EvmD", ont="OntQ", max_ops=20, max_block_txs=1), None))   # complete graph, depth 10
+        runs.append(("fullH", dict(evm="EvmH", ont="OntNone", max_ops=20, max_block_txs=1), None))  # complete graph, depth 10
         runs.append(("simT", dict(evm="EvmT", ont="OntT", max_ops=16, max_height=4), ("num=1500", 16)))
         runs.append(("simQ", dict(evm="EvmQ", ont="OntQ", max_ops=14, max_height=4, max_blocks=1, max_tx=2), ("num=1000", 14)))
     else:
-        runs.append(("exh4", dict(evm="EvmS", ont="OntQ", max_ops=4, max_block_txs=1), None))
         runs.append(("fullD", dict(evm="EvmD", ont="OntQ", max_ops=20, max_block_txs=1), None))   # complete graph, depth 10
-        runs.append(("simQ", dict(evm="EvmQ", ont="OntQ", max_ops=14, max_height=4), ("num=300", 14)))
+        runs.append(("fullH", dict(evm="EvmH", ont="OntNone", max_ops=20, max_block_txs=1), None))  # complete graph, depth 10
+        runs.append(("simQ", dict(evm="EvmQ", ont="OntQ", max_ops=14, max_height=4), ("num=400", 14)))
     npaths = nedges = 0
     names, results = set(), set()
     vh_cases, vh_maxblocks = {}, {}
@@ -73,8 +74,10 @@ def run(ctx):
         if len(ctx.samples) < 4 and paths:
             longest = max(paths, key=lambda p: len(p["steps"]))
             ctx.samples.append({"run": tag, "replayed_path": tp.path_text(longest, 14)})
-    nvh = tp.check_valid_height(ctx, vh_cases, vh_maxblocks) if vh_cases else 0
-    ctx.log("vbft Server.validHeight agrees with the model on %d (window, height) cases" % nvh)
+    # thorough only (an extra link of the consensus/vbft test binary): the proposer's validHeight logic vs the real vbft method
+    nvh = tp.check_valid_height(ctx, vh_cases, vh_maxblocks) if (vh_cases and ctx.thorough) else 0
+    if ctx.thorough:
+        ctx.log("vbft Server.validHeight agrees with the model on %d (window, height) cases" % nvh)
     if ctx.thorough:
         # pure model checking (no export, all workers) of the COMPLETE reachable graph of the deep universe with one more
         # ledger height; no depth bound is active (MaxOps is larger than the depth of the graph), so the run is exact
